@@ -296,6 +296,7 @@ func taskCase(d D) *Case {
 	g.RouteOneIn = 1
 	g.W = map[string]int{"CreatePromise": 2, "CreatePromiseAndTask": 1, "CreateCallback": 2, "CompletePromise": 1, "ClaimTask": 8, "CompleteTask": 4, "HeartbeatTasks": 4, "ReadPromise": 1}
 	g.TimeoutDeltas = []int64{3000, 5000, 8000, 20000}
+	g.HugeTtlOneIn = 12
 	c := &Case{Cfg: GenConfig(d, 8), Prof: Profile{Bg: []string{"EnqueueTasks", "TimeoutTasks", "TimeoutPromises"}, Permute: true, Hold: 6, Cut: 2, SendFail: 8},
 		Gen: g, Steps: [2]int{5, 16}, MaxRq: 3, Dts: []int64{0, 1, 500, 1000, 1000, 1000, -1, -1, -2, -3, 2000}, Settle: 6, Prime: 2, ExtraTicks: 4}
 	// short enqueue delay / signal timeout so that dispatch and lease sweeps happen inside the timeline
@@ -485,6 +486,7 @@ func TestC09(t *testing.T) {
 		Build: func(d D) *Case {
 			g := DefaultGen(d)
 			g.W = map[string]int{"AcquireLock": 6, "ReleaseLock": 3, "HeartbeatLocks": 3}
+			g.HugeTtlOneIn = 8
 			c := &Case{Cfg: GenConfig(d, 8), Prof: Profile{Bg: []string{"TimeoutLocks"}, Permute: true, Hold: 6, Cut: 2}, Gen: g, Steps: [2]int{4, 16}, MaxRq: 4,
 				Dts: []int64{0, 0, 1, 500, 1000, -1, -1, -2, -3}, Settle: 2}
 			c.Cfg.SignalTimeout = time.Second
